@@ -75,7 +75,7 @@ class C11:
     cases = {"quick": 250, "thorough": 8000}
     rule = ("inputs: CoreGen programs, typed expression programs, every repository sample and /verif/pbt/seeds file "
             "(fixed list, valid and invalid), and 1-mutation variants of them. Each is transpiled with annotate off and on. "
-            "Oracle: same verdict; on success both outputs parse and are equal as ast.dump after erasing variable, "
+            "Oracle: same verdict; on success either both outputs parse or neither does (neither: left to C02) and they are equal as ast.dump after erasing variable, "
             "parameter and return annotations and the typing imports nothing refers to any more. Non-trivial: accepted and "
             "the annotated output carries >=1 annotation; distinct by SHA-1 of the source.")
     assumptions = [
